@@ -8,6 +8,7 @@
 package ws
 
 import (
+	"encoding/json"
 	"fmt"
 	"strings"
 )
@@ -17,6 +18,46 @@ import (
 type Spelling struct {
 	Abs   bool     `json:"abs"`
 	Parts []string `json:"parts"`
+}
+
+// UnmarshalJSON accepts the compact text form (".a.b") exported by ProtoLang!SpText as well as
+// the record form {"abs":..,"parts":[..]}.
+func (s *Spelling) UnmarshalJSON(b []byte) error {
+	if len(b) > 0 && b[0] == '"' {
+		var t string
+		if err := json.Unmarshal(b, &t); err != nil {
+			return err
+		}
+		*s = ParseSpelling(t)
+		return nil
+	}
+	var r struct {
+		Abs   bool     `json:"abs"`
+		Parts []string `json:"parts"`
+	}
+	if err := json.Unmarshal(b, &r); err != nil {
+		return err
+	}
+	s.Abs, s.Parts = r.Abs, r.Parts
+	return nil
+}
+
+// MarshalJSON writes the compact text form.
+func (s Spelling) MarshalJSON() ([]byte, error) { return json.Marshal(s.String()) }
+
+// UnmarshalJSON accepts "(.a.b)"-less text form of an option use ("a.b") or {"name": ...}.
+func (o *OptUse) UnmarshalJSON(b []byte) error {
+	if len(b) > 0 && b[0] == '"' {
+		return o.Name.UnmarshalJSON(b)
+	}
+	var r struct {
+		Name Spelling `json:"name"`
+	}
+	if err := json.Unmarshal(b, &r); err != nil {
+		return err
+	}
+	o.Name = r.Name
+	return nil
 }
 
 func (s Spelling) IsRef() bool { return len(s.Parts) > 0 }
